@@ -244,6 +244,50 @@ def check_object(R, fam, base, cls, args, bo, ptr, tail):
                     ctx.violation("C14:directive-form:" + cls.__name__, "%s %s re-encodes (GNU as) to %s, encode() gives %s" % (gt["directive"], gt["operands"], a, list(enc)), case)
 
             R.ask({"op": "gas_enc", "bo": bo, "ptr": ptr, "directive": gt["directive"], "operands": gt["operands"]}, cb_gas)
+        # an instruction object is mutable: rendered once with other operands, changed (fields assigned, expression
+        # lists edited in place), rendered again - what is handed to GTIRB is the form of the operands it has *now*
+        import copy
+        import dataclasses
+
+        try:
+            # a fresh object with the same operands, never rendered so far
+            other = cls(*copy.deepcopy(list(args))) if dataclasses.is_dataclass(obj) and "err" not in gt and dataclasses.fields(obj) else None
+            for f in (dataclasses.fields(obj) if other is not None else []):
+                copy.deepcopy(getattr(obj, f.name))
+        except Exception:  # noqa: BLE001  (operations that cannot be copied)
+            other = None
+        if other is not None:
+            for f in dataclasses.fields(other):
+                v = getattr(other, f.name)
+                if isinstance(v, bool):
+                    continue
+                if isinstance(v, int):
+                    setattr(other, f.name, v + 1 if v % 2 == 0 else v - 1)
+                elif isinstance(v, list):
+                    if v:
+                        v.pop()
+                    else:
+                        continue
+            try:
+                other.gtirb_encoding(bo, ptr)        # rendered in this configuration with the other operands
+            except Exception:  # noqa: BLE001
+                pass
+            try:
+                for f in dataclasses.fields(obj):
+                    new = copy.deepcopy(getattr(obj, f.name))
+                    old = getattr(other, f.name)
+                    if isinstance(old, list) and isinstance(new, list):
+                        old[:] = new                 # edited in place
+                    else:
+                        setattr(other, f.name, new)
+                d2, ops2, _ = other.gtirb_encoding(bo, ptr)
+                again = {"directive": d2, "operands": list(ops2)}
+            except Exception as e:  # noqa: BLE001
+                again = {"err": _exc_name(e)}
+            ctx.count("rendered-again-after-a-change")
+            if other == obj and again != gt:
+                ctx.violation("C14:stale-rendering:" + cls.__name__, "%s rendered with other operands, changed to %r and rendered again gives %s; a fresh object with these operands gives %s"
+                              % (cls.__name__, tuple(argsj), again, gt), case)
 
 
 def check_decode_bytes(R, fam, base, data, bo, ptr):
